@@ -71,7 +71,7 @@ def run (cmd rest : String) : Option String :=
   match cmd with
   | "ping" => some "pong-c10x"
   | "subsetn" => do
-    -- "<ids|mask|pf> <keep_disc_cn 0/1> <ids or mask>" | table | conns | tags | soma
+    -- "<ids|mask|pf|pfmask> <keep_disc_cn 0/1> <ids or mask>" | table | conns | tags | soma
     match rest.splitOn "|" with
     | [a, tb, cn, tg, so] => do
       let x ← parseNeuron tb cn tg so
@@ -86,6 +86,10 @@ def run (cmd rest : String) : Option String :=
         let t' := subsetMask x.nodes m
         pure (showNeuron { nodes := t', conns := if kd == "1" then x.conns else filterConns t' x.conns,
                            tags := x.tags.map (filterTags t'), soma := filterSoma t' x.soma })
+      | ["pfmask", kd, m] => do
+        -- prevent_fragments with a boolean mask: the mask is translated into ids first
+        let m ← parseMask m
+        pure (showNeuron (subsetNeuronPF x (maskIds x.nodes m) (kd == "1")))
       | ["pf", kd, l] => do
         let s ← intList? l
         pure (showNeuron (subsetNeuronPF x s (kd == "1")))
